@@ -145,6 +145,8 @@ def gen_case(rng, flavour):
         return gen_fn_case(rng)
     if flavour == "index":
         return gen_index_case(rng)
+    if flavour == "cli":
+        return gen_cli_case(rng)
     lines = []
     S_db = rng.choice(SCALED_POOL)
     S2 = rng.choice([s for s in SCALED_POOL if s >= S_db] + [S_db * 2, S_db * 10])
@@ -413,6 +415,80 @@ def gen_index_case(rng):
     return lines
 
 
+def gen_cli_case(rng):
+    """the command-line layer, in process: `lca summarize` (several --db / --query, --threshold, --scaled, -o,
+    --ignore-abundance, abundance-weighted queries), `lca classify` (--majority, --scaled, -o), `lca rankinfo`
+    (--minimum-num, --scaled) on databases built here (in-memory form saved as JSON by the adapter, and the
+    SQLite form)"""
+    lines = []
+    S = rng.choice([1, 10, 100, 1000])
+    S_b = S if rng.random() < 0.7 else rng.choice([s for s in (1, 10, 100, 1000, 10000) if s >= S])
+    Smax = max(S, S_b)
+    M = max_hash(Smax)
+    pool = sorted(set(rng.sample(range(1, 40), rng.randint(4, 9)) + [M, min(M + 1, U64), max_hash(S)]))
+    taxa = gen_taxonomy(rng)
+    gaps = rng.random() < 0.12                                    # a missing rank: the CSV writers refuse it
+    nsig = rng.randint(2, 6)
+    for i in range(nsig):
+        name = rng.choice(["s{i}", "GCF_{i}.1~G{i}~sp"]).format(i=i)
+        hs = rng.sample(pool, rng.randint(1, len(pool)))
+        lines.append(f"sig {i} {name} - {min(S, S_b)} 0 21 {','.join(map(str, hs))} md5={sig_md5(21, 0, min(S, S_b), 0, hs)}")
+    lines.append(f"db 0 21 {S}")
+    lines.append(f"db 1 21 {S_b}")
+    for i in range(nsig):
+        lin = gen_lineage(rng, taxa, kind=("gap" if gaps and rng.random() < 0.5 else rng.choice(["full", "partial", "partial"])))
+        d = 0 if (i < 2 or rng.random() < 0.6) else 1
+        ident = "-" if rng.random() < 0.5 else lines[i].split()[2].replace("~", " ").split(" ")[0]
+        lines.append(f"ins {d} {i} {ident} {show_lineage(lin) if rng.random() > 0.1 else '-'}")
+    two = rng.random() < 0.5
+    if two:
+        lines.append(f"ins 1 0 other 0:{rng.randint(1, 9)}")     # the same sketch under another lineage in the second db
+    dbsets = [[0]] + ([[0, 1], [1, 0]] if two else [])
+    if rng.random() < 0.35:
+        lines.append("sql 0 2")
+        dbsets.append([2] if not two else [2, 1])
+    # queries
+    nq = rng.randint(1, 3)
+    qs = []
+    for j in range(nq):
+        r = 20 + j
+        hs = rng.sample(pool + [41, 42], rng.randint(1, len(pool)))
+        q_sc = rng.choice([s for s in (1, 10, 100, 1000, 10000) if s <= Smax])
+        if rng.random() < 0.05:
+            q_sc = Smax * 10                                      # cannot be brought to the databases' scaled: the command dies
+        k = 21 if rng.random() > 0.1 else 31                      # another ksize: not selected
+        ab = " ab=1" if rng.random() < 0.4 else ""
+        # (a query with neither name nor filename is listed under the md5 prefix of its DOWNSAMPLED sketch by
+        # `lca classify`; md5 is not modelled, so such queries always get a filename here)
+        name = rng.choice([f"q{j}", f"query~{j}", "-"])
+        fname = "-" if name != "-" else f"q{j}.fa"
+        lines.append(f"sig {r} {name} {fname} {q_sc} 0 {k} {','.join(map(str, hs))}{ab} md5={sig_md5(k, 0, q_sc, 0, hs)}")
+        qs.append(r)
+
+    def scaled_for(ds):
+        # all databases must end at one scaled value (`scaled_vals.pop()` is arbitrary otherwise)
+        scs = {0: S, 1: S_b, 2: S}
+        vals = {scs[d] for d in ds}
+        if len(vals) > 1:
+            return max(vals) * rng.choice([1, 1, 10])
+        return rng.choice([0, 0, Smax, Smax * 10, 1])
+
+    for _ in range(rng.randint(2, 4)):
+        ds = rng.choice(dbsets)
+        q = rng.sample(qs, rng.randint(1, len(qs)))
+        thr = rng.choice([0, 1, 1, 2, 3, 5])
+        c = rng.random()
+        dl, ql = ",".join(map(str, ds)), ",".join(map(str, q))
+        if c < 0.45:
+            lines.append(f"clisumm {dl} {ql} {thr} {scaled_for(ds)} {rng.randint(0, 1)}")
+        elif c < 0.8:
+            lines.append(f"clicls {dl} {ql} {thr} {scaled_for(ds)} {rng.randint(0, 1)}")
+        else:
+            lines.append(f"clirank {dl} {scaled_for(ds)} {rng.choice([0, 0, 1, 2, 3])}")
+    lines.append(f"clirank 0 0 0")
+    return lines
+
+
 def gen_summ(rng, hs, dbs, n):
     out = []
     for _ in range(n):
@@ -442,6 +518,41 @@ def gen_fn_case(rng):
         if rng.random() < 0.4:
             l = gen_lineage(rng, taxa, kind=rng.choice(["full", "partial"]))
             lines.append(f"pop {rng.randint(0, NRANKS - 1)} {show_lineage(l)}")
+        if rng.random() < 0.35:
+            a = gen_lineage(rng, taxa, kind=rng.choice(["full", "partial", "gap"]))
+            b = gen_lineage(rng, taxa, kind=rng.choice(["full", "partial"])) if rng.random() < 0.7 else gen_free_lineage(rng)
+            lines.append(f"match {rng.randint(0, NRANKS - 1)} {show_lineage(a)} {show_lineage(b) if b else '-'}")
+        if rng.random() < 0.25:
+            lines.append("mklin " + ",".join(str(rng.randint(1, 9)) for _ in range(rng.randint(1, 10))))
+        if rng.random() < 0.35:
+            l = rng.choice([gen_lineage(rng, taxa), gen_free_lineage(rng) or ((0, 1),)])
+            lines.append("disp " + (show_lineage(l) if l else "-"))
+    # the lineage table of an LCA SQLite database, and `lca compare_csv`
+    for _ in range(rng.randint(1, 3)):
+        tabs = []
+        for _t in range(rng.choice([1, 1, 2])):
+            ents = []
+            for i in rng.sample(range(6), rng.randint(0, 4)):
+                r = rng.random()
+                l = gen_lineage(rng, taxa) if r < 0.85 else (gen_free_lineage(rng) or ((0, 1),))
+                ents.append(f"id{i}={show_lineage(l)}")
+            tabs.append("/".join(ents) or "-")
+        lines.append(f"taxdb {rng.choice(['sql', 'sql', 'csv'])} " + " ".join(tabs))
+    if rng.random() < 0.6:
+        def cells(path):
+            return [f"t{n}" for n in path]
+        ids = [f"g{i}" for i in range(rng.randint(1, 5))]
+        rows1 = [["ID", "status"] + TAXHEADER[1:]]
+        rows2 = [list(TAXHEADER)]
+        for i in ids:
+            p1 = rng.choice(taxa)
+            p2 = p1 if rng.random() < 0.3 else rng.choice(taxa)
+            if rng.random() < 0.85:
+                rows1.append([i, rng.choice(["found", "disagree"])] + cells(p1[:rng.randint(1, len(p1))]))
+            if rng.random() < 0.85:
+                rows2.append([i] + cells(p2[:rng.randint(1, len(p2))]))
+        enc = lambda rows: "/".join(";".join(c.replace(" ", "~") for c in r) for r in rows)
+        lines.append(f"clicmp k21{rng.choice(['', ',f'])} {enc(rows1)} {enc(rows2)}")
     return lines
 
 
@@ -624,6 +735,41 @@ def oracle(case, impl):
                         flag("C18:find-lca", f"the statement gives {exp[3:]}")
                 elif ok:
                     flag("C18:find-lca-empty", "an empty set of lineages has no LCA")
+            elif o == "clicls" and obs == "err TypeError":
+                flag("C18:classify-scaled-float-typeerror",
+                     "`lca classify --scaled S` dies with TypeError as soon as a database has to be downsampled: --scaled is "
+                     "parsed as a float and (unlike summarize / rankinfo) not converted to int before "
+                     "downsample_scaled builds MinHash(scaled=S)")
+            elif o == "taxdb" and ok:
+                merged = {}
+                for t in a[1:]:
+                    if t != "-":
+                        for e in t.split("/"):
+                            i, l = e.split("=")
+                            merged[i] = parse_lineage(l)      # a later table shadows an earlier one
+                if a[0] == "sql" and all([r for r, _ in l] == list(range(len(l))) for l in merged.values()):
+                    # positional lineages: every name comes back at its rank, trailing empty names dropped
+                    def strip(l):
+                        l = list(l)
+                        while l and l[-1][1] == 0:
+                            l.pop()
+                        return tuple(l)
+                    exp_rows = sorted(f"{i}={show_lineage(strip(l))}" for i, l in merged.items())
+                    exp_ranks = sorted({r for l in merged.values() for r, n in l if n != 0})
+                    m = dict(kv.split("=", 1) for kv in val.split(" ")[:2])
+                    got_ranks = [] if m["ranks"] == "-" else [int(x) for x in m["ranks"].split(",")]
+                    rest = val.split(" ", 2)[2] if len(val.split(" ")) > 2 else "-"
+                    got_rows = [] if rest == "-" else sorted(rest.split("|"))
+                    if got_rows != exp_rows or int(m["n"]) != len(merged):
+                        flag("C18:sqlite-lineage-table-roundtrip", f"expected {exp_rows[:4]}")
+                    elif got_ranks != exp_ranks:
+                        swap = {2: 3, 3: 2}
+                        if sorted(swap.get(r, r) for r in got_ranks) == exp_ranks:
+                            flag("C18:sqlite-lineage-available-ranks-class-order-swapped",
+                                 f"names are stored at ranks {exp_ranks}; available_ranks reports {got_ranks} "
+                                 "(LineageDB_Sqlite.columns lists order_ before class, the ranks list class before order)")
+                        else:
+                            flag("C18:sqlite-lineage-available-ranks", f"expected {exp_ranks}")
             elif o == "pop":
                 lin = parse_lineage(a[1])
                 r = int(a[0])
@@ -834,4 +980,5 @@ def nontrivial(case, impl):
     la = sum(1 for c, o in zip(case, impl) if c.startswith("la ") and o.startswith("ok ") and o != "ok -")
     fn = sum(1 for c, o in zip(case, impl) if c.startswith("lca ") and o.startswith("ok "))
     ix = any(c.startswith("index ") and o.startswith("ok") for c, o in zip(case, impl))
-    return (ins >= 2 and la >= 3) or fn >= 3 or (ix and la >= 1)
+    cli = sum(1 for c, o in zip(case, impl) if c.startswith("cli") and o.startswith("ok ") and o != "ok -")
+    return (ins >= 2 and la >= 3) or fn >= 3 or (ix and la >= 1) or cli >= 2
